@@ -206,3 +206,8 @@ fn test_checksum() {
 
     assert_eq!(finish_netsum(partial_netsum(0, &data)), 0xE5CA);
 }
+
+#[cfg(feature = "isomer_erbium_verif")]
+mod isomer_erbium_verif {
+    include!(concat!(env!("ISOMER_ERBIUM_VERIF_DIR"), "/net_packet.rs"));
+}
